@@ -159,6 +159,8 @@ SpecReadJSON(tree) ==
   IN [recs |-> RecsOfKinds(tree, 1, top, none),
       bundles |-> [i \in 1..Len(bs) |->
                      LET sc == ScopeOf(bs[i][2]) IN
-                     [id |-> StrUri(bs[i][1], top, none),    \* a key of the top-level object
+                     (* the key names the bundle through the bundle's own declarations, then the *)
+                     (* document's (ProvToolbox practice, e.g. the corpus file bundle4.json)       *)
+                     [id |-> StrUri(bs[i][1], sc, top),
                       recs |-> RecsOfKinds(bs[i][2], 1, sc, top)]]]
 =============================================================================
